@@ -13,6 +13,74 @@ use taskchampion_sync_server::WebServer;
 use taskchampion_sync_server_core::ServerConfig;
 use uuid::Uuid;
 
+pub struct Prepared {
+    pub method: String,
+    pub uri: String,
+    pub cid_bytes: Option<Vec<u8>>,
+    pub ct_val: Option<String>,
+    pub chunks: Vec<Vec<u8>>,
+    pub op_prefix: String,
+    pub route_class: String,
+    pub seg_class: String,
+    pub cid_class: String,
+}
+
+type Hdr = Option<Vec<u8>>;
+pub type RawResult = Result<(u16, Hdr, Hdr, Hdr, Hdr, Hdr, Vec<u8>), (u16, Hdr)>;
+
+/// run one prepared request through the real handlers: its own actix System and App instance
+/// sharing the WebServer (the way HttpServer workers share state); callable from any thread
+pub fn run_request(web: WebServer, prep: &Prepared) -> std::thread::Result<RawResult> {
+    let method = Method::from_bytes(prep.method.as_bytes()).unwrap();
+    let uri = prep.uri.clone();
+    let cid_bytes = prep.cid_bytes.clone();
+    let ct_val = prep.ct_val.clone();
+    let chunks = prep.chunks.clone();
+    std::panic::catch_unwind(std::panic::AssertUnwindSafe(|| {
+        actix_rt::System::new().block_on(async move {
+            let app = test::init_service(App::new().configure(|c| web.config(c))).await;
+            let mut rq = test::TestRequest::default().method(method).uri(&uri);
+            if let Some(b) = cid_bytes {
+                rq = rq.insert_header((
+                    actix_web::http::header::HeaderName::from_static("x-client-id"),
+                    actix_web::http::header::HeaderValue::from_bytes(&b).unwrap_or(actix_web::http::header::HeaderValue::from_static("")),
+                ));
+            }
+            if let Some(ct) = ct_val {
+                rq = rq.insert_header(("Content-Type", ct));
+            }
+            let req = if chunks.len() <= 1 {
+                rq.set_payload(chunks.concat()).to_request()
+            } else {
+                let (mut sender, pl) = actix_http::h1::Payload::create(true);
+                for c in &chunks {
+                    sender.feed_data(actix_web::web::Bytes::copy_from_slice(c));
+                }
+                sender.feed_eof();
+                let req = rq.to_request();
+                let (req, _) = req.replace_payload(actix_http::Payload::from(pl));
+                req
+            };
+            let resp = test::try_call_service(&app, req).await;
+            match resp {
+                Ok(resp) => {
+                    let status = resp.status().as_u16();
+                    let hdr = |n: &str| resp.headers().get(n).map(|v| v.as_bytes().to_vec());
+                    let (xv, xp, xs, ct, cc) = (hdr("X-Version-Id"), hdr("X-Parent-Version-Id"), hdr("X-Snapshot-Request"), hdr("Content-Type"), hdr("Cache-Control"));
+                    let body = test::read_body(resp).await.to_vec();
+                    Ok((status, xv, xp, xs, ct, cc, body))
+                }
+                Err(e) => {
+                    // an Err escaping the service: what the HTTP dispatcher would send
+                    let r = e.error_response();
+                    let hdr = |n: &str| r.headers().get(n).map(|v| v.as_bytes().to_vec());
+                    Err((r.status().as_u16(), hdr("Cache-Control")))
+                }
+            }
+        })
+    }))
+}
+
 pub struct HCtx {
     pub l1: Ctx,
     pub allow: Option<Vec<u32>>, // symbolic client numbers
@@ -69,10 +137,21 @@ impl HCtx {
         }
     }
 
-    /// http METHOD ROUTE SEGFORM:SEGSPEC CIDFORM:CLIENT CTYPE BODY
+    /// http METHOD ROUTE SEGFORM=SEGSPEC CIDFORM=CLIENT CTYPE BODY
     pub fn http(&mut self, toks: &[&str]) {
+        let prep = self.build(toks);
+        let web = self.web.as_ref().unwrap().clone();
+        let store = self.l1.store.as_ref().unwrap().clone();
+        store.take_log();
+        let now = chrono::Utc::now().timestamp();
+        let raw = run_request(web, &prep);
+        let calls = store.take_log().join(",");
+        self.finish(prep, raw, now, Some(calls));
+    }
+
+    /// resolve symbolic parts against the current state and build the raw request bytes
+    pub fn build(&mut self, toks: &[&str]) -> Prepared {
         let (method_s, route, seg, cid, ctype, body) = (toks[0], toks[1], toks[2], toks[3], toks[4], toks[5]);
-        let method = Method::from_bytes(method_s.as_bytes()).unwrap();
         // ---- path
         let (seg_class, seg_bytes): (String, Vec<u8>) = if seg == "-" {
             ("-".into(), vec![])
@@ -159,56 +238,22 @@ impl HCtx {
             chunks.iter().zip(toks.iter()).map(|(c, t)| format!("{}:{}", c.len(), t)).collect()
         };
         let chunks_class = if chunk_strs.is_empty() { "-".to_string() } else { chunk_strs.join(";") };
+        let mclass = match method_s { "GET" => "get", "POST" => "post", _ => "other" };
+        Prepared {
+            method: method_s.to_string(),
+            uri,
+            cid_bytes,
+            ct_val: ct_val.map(|s| s.to_string()),
+            chunks,
+            op_prefix: format!("http {mclass} {route_class} {seg_class} {cid_class} {ct_class} {chunks_class}"),
+            route_class: route_class.to_string(),
+            seg_class,
+            cid_class,
+        }
+    }
 
-        // ---- run the request through the real handlers
-        let web = self.web.as_ref().unwrap().clone();
-        let store = self.l1.store.as_ref().unwrap().clone();
-        store.take_log();
-        let now = chrono::Utc::now().timestamp();
-        let res = std::panic::catch_unwind(std::panic::AssertUnwindSafe(|| {
-            actix_rt::System::new().block_on(async move {
-                let app = test::init_service(App::new().configure(|c| web.config(c))).await;
-                let mut rq = test::TestRequest::default().method(method).uri(&uri);
-                if let Some(b) = cid_bytes {
-                    rq = rq.insert_header((
-                        actix_web::http::header::HeaderName::from_static("x-client-id"),
-                        actix_web::http::header::HeaderValue::from_bytes(&b).unwrap_or(actix_web::http::header::HeaderValue::from_static("")),
-                    ));
-                }
-                if let Some(ct) = ct_val {
-                    rq = rq.insert_header(("Content-Type", ct));
-                }
-                let req = if chunks.len() <= 1 {
-                    rq.set_payload(chunks.concat()).to_request()
-                } else {
-                    let (mut sender, pl) = actix_http::h1::Payload::create(true);
-                    for c in &chunks {
-                        sender.feed_data(actix_web::web::Bytes::copy_from_slice(c));
-                    }
-                    sender.feed_eof();
-                    let req = rq.to_request();
-                    let (req, _) = req.replace_payload(actix_http::Payload::from(pl));
-                    req
-                };
-                let resp = test::try_call_service(&app, req).await;
-                match resp {
-                    Ok(resp) => {
-                        let status = resp.status().as_u16();
-                        let hdr = |n: &str| resp.headers().get(n).map(|v| v.as_bytes().to_vec());
-                        let (xv, xp, xs, ct, cc) = (hdr("X-Version-Id"), hdr("X-Parent-Version-Id"), hdr("X-Snapshot-Request"), hdr("Content-Type"), hdr("Cache-Control"));
-                        let body = test::read_body(resp).await.to_vec();
-                        Ok((status, xv, xp, xs, ct, cc, body))
-                    }
-                    Err(e) => {
-                        // an Err escaping the service: what the HTTP dispatcher would send
-                        let r = e.error_response();
-                        let hdr = |n: &str| r.headers().get(n).map(|v| v.as_bytes().to_vec());
-                        Err((r.status().as_u16(), hdr("Cache-Control")))
-                    }
-                }
-            })
-        }));
-        let calls = store.take_log().join(",");
+    /// canonicalise the raw result and emit the OP / R lines
+    pub fn finish(&mut self, prep: Prepared, res: std::thread::Result<RawResult>, now: i64, calls: Option<String>) {
         let idh = |canon: &mut crate::canon::Canon, v: Option<Vec<u8>>| -> String {
             match v {
                 None => "-".to_string(),
@@ -227,17 +272,15 @@ impl HCtx {
             }
             Ok(Ok((status, xv, xp, xs, ct, cc, body))) => {
                 // an accepted add-version: remember it for symbolic resolution
-                if route_class == "av" && status == 200 {
-                    if let (Some(b), Ok(c)) = (xv.as_ref(), cid_class.parse::<u64>()) {
+                if prep.route_class == "av" && status == 200 {
+                    if let (Some(b), Ok(c)) = (xv.as_ref(), prep.cid_class.parse::<u64>()) {
                         if let Some(u) = std::str::from_utf8(b).ok().and_then(|s| Uuid::parse_str(s).ok()) {
-                            let reused = self.l1.canon.seen(&u);
                             let sym = self.l1.clients.iter().find(|(_, v)| self.l1.canon_peek(**v) == Some(c)).map(|(k, _)| *k);
-                            if let (Some(sym), Ok(p)) = (sym, seg_class.parse::<u64>()) {
+                            if let (Some(sym), Ok(p)) = (sym, prep.seg_class.parse::<u64>()) {
                                 let pu = if p == 0 { Uuid::nil() } else { self.l1.canon.known[(p - 1) as usize] };
                                 self.l1.accepted.entry(sym).or_default().push((u, pu));
                             }
                             fresh_id = Some(self.l1.canon.id(u));
-                            if reused { /* reported below through the id itself */ }
                         }
                     }
                 }
@@ -263,9 +306,11 @@ impl HCtx {
             }
         };
         let fresh = fresh_id.unwrap_or_else(|| self.l1.canon.unused());
-        let mclass = match method_s { "GET" => "get", "POST" => "post", _ => "other" };
-        self.l1.out.push(format!("OP http {mclass} {route_class} {seg_class} {cid_class} {ct_class} {chunks_class} {fresh} {now}"));
-        self.l1.out.push(format!("R {line} | {calls}"));
+        self.l1.out.push(format!("OP {} {fresh} {now}", prep.op_prefix));
+        match calls {
+            Some(c) => self.l1.out.push(format!("R {line} | {c}")),
+            None => self.l1.out.push(format!("R {line} | ")),
+        }
     }
 
     pub fn exec(&mut self, toks: &[&str]) {
@@ -273,6 +318,14 @@ impl HCtx {
             ["http", rest @ ..] => {
                 self.http(rest);
                 self.l1.after_op();
+            }
+            ["conc", mode, rest @ ..] => {
+                // conc MODE http ... || http ... ## sched tokens
+                let joined = rest.join(" ");
+                let (reqs_s, sched_s) = joined.split_once("##").unwrap_or((&joined, ""));
+                let reqs: Vec<Vec<String>> = reqs_s.split("||").map(|r| r.split_whitespace().map(|x| x.to_string()).collect()).collect();
+                let sched: Vec<String> = sched_s.split_whitespace().map(|x| x.to_string()).collect();
+                self.conc(mode, reqs, sched);
             }
             ["allow", spec] => {
                 self.allow = match *spec {
